@@ -1094,6 +1094,7 @@ class Sink:
     self.counts = {}
     self.assumed = []  # names of trusted facts used (for the evidence)
     self._seen = set()
+    self.trivial = set()  # names of obligations decided (true) during execution
 
   def add(self, ob):
     key = (ob.name, ob.formula().sexpr())
@@ -1190,11 +1191,14 @@ class Ctx:
     self.pc.append(f)
 
   def oblige(self, name, goal, kind='post', detail=''):
+    full = f'{self.fn_name}:{name}' if self.fn_name else name
     if isinstance(goal, bool):
       if goal:
+        # decided while executing (a structural fact): nothing for the solver, but the name is part of the
+        # contract of the pinned tree, so that the same obligation failing on a changed tree is recognised
+        self.sink.trivial.add(full)
         return
       goal = z3.BoolVal(False)
-    full = f'{self.fn_name}:{name}' if self.fn_name else name
     ob = Obligation(full, self.pc, goal, kind, detail, self.fn_name,
                     self.lineno, self.model_vars)
     self.sink.add(ob)
